@@ -327,8 +327,18 @@ func runDriver(args []string) int {
 		}
 	}
 	var assumptions []string
+	grouped := map[string][]string{}
 	for a := range assumed {
+		if i := strings.Index(a, " sites) in "); i > 0 && strings.HasPrefix(a, "machine arithmetic") {
+			k := a[:i+len(" sites) in ")]
+			grouped[k] = append(grouped[k], a[i+len(" sites) in "):])
+			continue
+		}
 		assumptions = append(assumptions, a)
+	}
+	for k, fs := range grouped {
+		sort.Strings(fs)
+		assumptions = append(assumptions, k+strings.Join(fs, ", "))
 	}
 	for a := range exts {
 		assumptions = append(assumptions, a)
